@@ -564,7 +564,6 @@ fn run_case(case: &str) -> (String, String, String) {
                         target_pid = Some(j.pid);
                     }
                 }
-                let was_alive = target_pid.is_some();
                 let final_state = target.and_then(|i| l.get(i)).map(|j| if j.state.is_alive() { outcome } else { j.state });
                 wd.env.options.set(Monitor, if m { On } else { Off });
                 wd.env.jobs = std::mem::take(&mut l);
@@ -588,7 +587,6 @@ fn run_case(case: &str) -> (String, String, String) {
                 };
                 let ran = wd.run_builtin(&mut hook, |env| Box::pin(yash_builtin::fg::main(env, fields)));
                 l = std::mem::take(&mut wd.env.jobs);
-                let _ = was_alive;
                 if !ran.stuck && ran.stderr.is_empty() {
                     // "If the resumed job finishes, it is removed from the job list.  If the job gets
                     // suspended again, it is set as the current job."
